@@ -53,7 +53,7 @@ type scriptPubSub struct {
 	subs        map[string]*scriptSub
 	subscribed  []string
 	published   []string
-	peersAlways []peer.ID // when set, Peers() answers immediately with this (oneonone)
+	peersAlways []peer.ID     // when set, Peers() answers immediately with this (oneonone)
 	hold        chan struct{} // when set, Subscribe waits for it to be closed
 	held        chan struct{} // the channel that was installed as hold (kept for closing)
 	waiting     int           // callers currently inside a held Subscribe
@@ -617,10 +617,93 @@ func runDirectChannelInterleavings() (string, []explore.Violation) {
 	return fmt.Sprintf("orders=%d", len(orders)), vs
 }
 
+// runDirectChannelConcurrentSends: two goroutines send through ONE channel object at the same time (payload
+// lengths whose varint prefixes differ); every Write on the outgoing streams is a schedule point and all
+// interleavings of the four writes are run. Each receiver must get exactly the payload sent to it.
+func runDirectChannelConcurrentSends() (string, []explore.Violation) {
+	var vs []explore.Violation
+	orders := [][]string{{"s1", "s1", "s2", "s2"}, {"s1", "s2", "s1", "s2"}, {"s1", "s2", "s2", "s1"}, {"s2", "s1", "s1", "s2"}, {"s2", "s1", "s2", "s1"}, {"s2", "s2", "s1", "s1"}}
+	for _, dest := range []string{"two receivers", "one receiver"} {
+		for _, ord := range orders {
+			a, c, d := sim.DeterministicPeerID("dcA"), sim.DeterministicPeerID("dcC"), sim.DeterministicPeerID("dcD")
+			ha, hc, hd := sim.NewFakeHost(a), sim.NewFakeHost(c), sim.NewFakeHost(d)
+			ha.Peers[c], ha.Peers[d] = hc, hd
+			emC, emD := &recEmitter{}, &recEmitter{}
+			chA, _ := directchannel.InitDirectChannelFactory(zap.NewNop(), ha)(bg, &recEmitter{}, nil)
+			_, _ = directchannel.InitDirectChannelFactory(zap.NewNop(), hc)(bg, emC, nil)
+			_, _ = directchannel.InitDirectChannelFactory(zap.NewNop(), hd)(bg, emD, nil)
+			gates := sim.NewGates()
+			gates.Enable(func(kind, peer, key, caller string) bool { return kind == "stream.write" })
+			ha.BeforeWrite = func() { _, _ = gates.Pass(bg, "stream.write", sim.GoroutineTag(), "") }
+			long, short := bytes.Repeat([]byte("L"), 300), []byte("SSSSS")
+			to2 := d
+			if dest == "one receiver" {
+				to2 = c
+			}
+			done := make(chan struct{}, 2)
+			go func() {
+				sim.TagGoroutine("s1")
+				defer sim.UntagGoroutine()
+				_ = chA.Send(bg, c, long)
+				done <- struct{}{}
+			}()
+			_ = sim.Quiesce()
+			go func() {
+				sim.TagGoroutine("s2")
+				defer sim.UntagGoroutine()
+				_ = chA.Send(bg, to2, short)
+				done <- struct{}{}
+			}()
+			_ = sim.Quiesce()
+			ok := true
+			for _, who := range ord {
+				found := ""
+				for _, l := range gates.Parked() {
+					if strings.HasPrefix(l, "stream.write|"+who+"|") {
+						found = l
+					}
+				}
+				if found == "" {
+					ok = false // this order is not schedulable (a sender finished with fewer writes): not judged
+					break
+				}
+				_ = gates.Release(found, sim.AnswerOK)
+				_ = sim.Quiesce()
+			}
+			gates.Enable(nil)
+			gates.ReleaseAll()
+			_ = sim.Quiesce()
+			if !ok || len(done) != 2 {
+				continue
+			}
+			got := map[string][]string{}
+			for name, em := range map[string]*recEmitter{"c": emC, "d": emD} {
+				em.mu.Lock()
+				for _, e := range em.evts {
+					got[name] = append(got[name], fmt.Sprintf("%d bytes %q..", len(e.Payload), string(e.Payload[:min(3, len(e.Payload))])))
+				}
+				em.mu.Unlock()
+				sort.Strings(got[name])
+			}
+			want := map[string][]string{"c": {`300 bytes "LLL"..`}, "d": {`5 bytes "SSS"..`}}
+			if dest == "one receiver" {
+				want = map[string][]string{"c": {`300 bytes "LLL"..`, `5 bytes "SSS"..`}}
+			}
+			for _, name := range []string{"c", "d"} {
+				if strings.Join(got[name], ",") != strings.Join(want[name], ",") {
+					vs = append(vs, explore.Violation{Signature: "directchannel-concurrent-sends-corrupt-frames",
+						Detail: fmt.Sprintf("%s, write order %v: receiver %s got %v, expected %v", dest, ord, name, got[name], want[name])})
+				}
+			}
+		}
+	}
+	return "orders=12", vs
+}
+
 func init() {
 	explore.Register(&explore.CheckDef{
 		ID: "C20", Level: "exploration",
-		Rule: "pubsubcoreapi over a scripted PubSub API whose poll loop is stepped one membership snapshot at a time: every sequence of <= 3 (quick) / <= 4 (thorough) snapshots over 3 remote peers, each snapshot a duplicate-free set in every list order (16 ordered lists): joins and leaves reported must be exactly the set differences of consecutive snapshots, once each, and Peers() the last snapshot; every message sequence of length <= 3 over sender {self, p1, p2} x payload {empty, 1 byte, 64 KiB} must be delivered as exactly the multiset of its non-self payloads, byte-identical (order is not part of the statement and is not judged) (topic adapter and one-on-one channel monitor, the latter attributed to the channel's remote peer). oneonone: channel names symmetric, distinct and used for sending, for all 20 ordered pairs of 5 peer ids; two overlapping Connect calls for one peer (the subscription call held open) must leave one subscription and deliver a later payload once. directchannel over an in-memory host: 10 payload sizes from 0 to the frame limit +1 (exact bytes, exact sender, once; oversize refused and the next frame still delivered) and all 6 interleavings of two senders x two frames. pubsubraw over three real in-memory libp2p hosts with gossipsub: every message sequence of length <= 2 over 3 senders x 2 sizes, receipt-based waiting (bounded input enumeration without schedule control; a delivery the library does not make in time ends the case as inconclusive, not as a violation). Non-trivial = sequences in which membership changes / a self-sent message occurs.",
+		Rule: "pubsubcoreapi over a scripted PubSub API whose poll loop is stepped one membership snapshot at a time: every sequence of <= 3 (quick) / <= 4 (thorough) snapshots over 3 remote peers, each snapshot a duplicate-free set in every list order (16 ordered lists): joins and leaves reported must be exactly the set differences of consecutive snapshots, once each, and Peers() the last snapshot; every message sequence of length <= 3 over sender {self, p1, p2} x payload {empty, 1 byte, 64 KiB} must be delivered as exactly the multiset of its non-self payloads, byte-identical (order is not part of the statement and is not judged) (topic adapter and one-on-one channel monitor, the latter attributed to the channel's remote peer). oneonone: channel names symmetric, distinct and used for sending, for all 20 ordered pairs of 5 peer ids; two overlapping Connect calls for one peer (the subscription call held open) must leave one subscription and deliver a later payload once. directchannel over an in-memory host: 10 payload sizes from 0 to the frame limit +1 (exact bytes, exact sender, once; oversize refused and the next frame still delivered) and all 6 interleavings of two senders x two frames; two concurrent Sends through one channel object (prefixes of different length, one or two receivers) with every stream write a schedule point, all 6 write orders. pubsubraw over three real in-memory libp2p hosts with gossipsub: every message sequence of length <= 2 over 3 senders x 2 sizes, receipt-based waiting (bounded input enumeration without schedule control; a delivery the library does not make in time ends the case as inconclusive, not as a violation). Non-trivial = sequences in which membership changes / a self-sent message occurs.",
 		Units: func(tier string) []explore.Unit {
 			u := explore.ChunkUnits("membership-"+tier, 16)
 			u = append(u, explore.ChunkUnits("topicmsgs", 4)...)
@@ -692,6 +775,7 @@ func init() {
 				cases = append(cases, explore.Case{ID: "oneonone concurrent connect", Nontrivial: true, Run: runOneOnOneConcurrentConnect})
 				cases = append(cases, explore.Case{ID: "directchannel sizes", Nontrivial: true, Run: runDirectChannelSizes})
 				cases = append(cases, explore.Case{ID: "directchannel interleavings", Nontrivial: true, Run: runDirectChannelInterleavings})
+				cases = append(cases, explore.Case{ID: "directchannel concurrent sends through one channel", Nontrivial: true, Run: runDirectChannelConcurrentSends})
 				cases = append(cases, explore.Case{ID: "pubsubraw over in-memory libp2p hosts", Nontrivial: true, Run: runPubSubRaw})
 			}
 			explore.RunCases(c, "C20", cases, i, n)
